@@ -1887,6 +1887,8 @@ def collect(R, results, tag):
             R.count('%s:python-unexecutable (NameError in the module)' % tag)
         if r.get('inadmissible'):
             R.count('%s:inadmissible-data (CPython raises, C gives inf/nan)' % tag)
+        if r.get('crashed'):
+            R.count('%s:worker-died' % tag)
         R.count('%s:%s' % (tag, lab.split(':')[0]))
         for c_ in group_feature_classes(spec):
             R.count('%s:%s' % (tag, c_))
@@ -1944,13 +1946,71 @@ def group_feature_classes(spec):
     return sorted(set(out))
 
 
+def run_isolated(specs, work, mode, procs):
+    """one subprocess per program: a crash of generated code (segmentation
+    fault in the compiled module) must not take the harness down, and must be
+    attributed to the program that crashed"""
+    import subprocess
+    pending = list(enumerate(specs))
+    running = {}
+    outs = [None] * len(specs)
+    uid = '%d_%d' % (os.getpid(), int(time.time() * 1000) % 100000)
+    while pending or running:
+        while pending and len(running) < procs:
+            k, spec = pending.pop(0)
+            tf = os.path.join(work, 'task_%s_%d.json' % (uid, k))
+            of = os.path.join(work, 'out_%s_%d.json' % (uid, k))
+            with open(tf, 'w') as fh:
+                json.dump([spec, work, mode], fh)
+            lf = open(of + '.log', 'wb')
+            pr = subprocess.Popen([sys.executable, os.path.abspath(__file__),
+                                   '--worker-task', tf, '--worker-out', of],
+                                  stdout=lf, stderr=subprocess.STDOUT,
+                                  stdin=subprocess.DEVNULL)
+            lf.close()
+            running[k] = (pr, of, time.time())
+        time.sleep(0.2)
+        for k in list(running):
+            pr, of, t0 = running[k]
+            rc = pr.poll()
+            if rc is None:
+                if time.time() - t0 > 900:
+                    pr.kill()
+                    rc = 'timeout'
+                else:
+                    continue
+            del running[k]
+            if rc == 0 and os.path.exists(of):
+                outs[k] = json.load(open(of))
+                continue
+            # the worker died: analyse the generated source here (nothing
+            # compiled is executed for that) and report the death
+            log = open(of + '.log', 'rb').read().decode(errors='replace')
+            o = run_program((specs[k], work, 'codeonly'))
+            o['fail'] = list(o['fail']) + [(
+                'C02:compute-crashes:%s' % specs[k].get('label', 'program'),
+                'the compiled program is built, AccelerationEval.compute(t, dt) returns and leaves '
+                'the values of the Python execution',
+                'the worker process died (exit code %s) while building / running the compiled '
+                'program: %s' % (rc, log[-600:]))]
+            o['crashed'] = True
+            outs[k] = o
+    return outs
+
+
 def run_batch(specs, work, mode, procs):
     if not specs:
         return []
     if procs <= 1 or len(specs) == 1:
         return [run_program((s, work, mode)) for s in specs]
-    with ProcessPoolExecutor(max_workers=procs) as ex:
-        return list(ex.map(run_program, [(s, work, mode) for s in specs]))
+    from concurrent.futures.process import BrokenProcessPool
+    try:
+        with ProcessPoolExecutor(max_workers=procs) as ex:
+            return list(ex.map(run_program, [(s, work, mode) for s in specs]))
+    except BrokenProcessPool:
+        # a worker died (generated code crashed): run every program of the
+        # batch again, each in a process of its own (the builds are cached)
+        return run_isolated(specs, work, mode, procs)
 
 
 def corpus_specs():
@@ -2017,6 +2077,14 @@ def corpus_specs():
 
 
 def main():
+    if '--worker-task' in sys.argv:
+        tf = sys.argv[sys.argv.index('--worker-task') + 1]
+        of = sys.argv[sys.argv.index('--worker-out') + 1]
+        spec, work, mode = json.load(open(tf))
+        o = run_program((spec, work, mode))
+        with open(of, 'w') as fh:
+            json.dump(o, fh)
+        sys.exit(0)
     a = H.args()
     R = H.Result(
         'cases = (v) block evaluations of every generated code/doc block on random '
@@ -2039,8 +2107,9 @@ def main():
         rp = json.load(open(a.replay))
         case = rp['case']
         if case.get('kind') == 'program':
-            r = run_program((case['spec'], work, 'full'))
-            fails = r['fail'] if r['ok'] else [('error', '', r['err'])]
+            # in a process of its own: the replayed program may crash
+            r = run_isolated([case['spec']], work, 'full', 1)[0]
+            fails = list(r['fail']) + ([] if r['ok'] else [('error', '', r['err'])])
             print(json.dumps(fails, indent=1))
             sys.exit(1 if fails else 0)
         if case.get('kind') == 'sort':
